@@ -19,46 +19,61 @@ LEVEL = "exploration"
 RULE = (
     "Seven clause families. (exact_recovery) hypothesis-drawn (well-posed model, dimensionless shape, grid of 8-60 "
     "points, magnitudes) -> generating parameters inside param_default_bounds: Henry K=k*L/P, k in [0.1,10]; Langmuir / "
-    "Toth / TemkinApprox K*pmax in [0.3,300], n_m in [0.3,3]*L, Toth t in [0.3,3], Temkin tht in [0,2.5]; DSLangmuir two "
-    "such sites; BET N in [1e-3,0.99], N*pmax in [0.05,0.95], C/N in [0.5,1000]; Freundlich m in [0.3,10]; DR/DA "
-    "relative pressures pmax in [0.05,0.99], e/RT in [0.5,30] (T in [60,400] K), DA m in [1.05,2.95]; Jensen-Seaton "
-    "K*pmax/a in [1,100], b*pmax in [0.01,10], c in [0.3,3]; grids linear / geometric / random in [umin,1]*pmax with "
-    "umin in [1e-4,0.3] (DR/DA p >= 1e-6); magnitudes pmax=P in 10^[-3,5], L in 10^[-6,3] (half of the cases 'natural': "
-    "P in [0.1,10], L in [0.1,100]); data = the library's own model function at those parameters; entry paths arrays / "
-    "DataFrame / from_pointisotherm / model_iso, default or user starting guess (truth x [0.5,2]). Oracle: when the fit "
-    "returns, max|fit(p)-n|/max n <= 1e-2; CalculationError = no claim. (rmse_identity) all 16 models x arbitrary "
-    "increasing data (cumulative sums of hypothesis-drawn increments, 8-40 points, optional desorption leg, "
-    "multiplicative noise 0/1/5 % from numpy.default_rng(seed in the descriptor)), default/user guess, both branches: "
-    "reported rmse == sqrt(mean r^2)/(max-min of the fitted dependent variable) recomputed from the fitted model "
-    "(Virial: sqrt(mean r^2) of its linearised residual), and pressure/loading_range == range of the fitted branch. "
-    "(bounds) user boxes placed around / above / below the free optimum, user guesses inside: fitted parameters inside "
-    "the box, rmse identity. (guess_best) lists of 2-4 of the 13 faster models (any casing) or 'guess' (1 case in 8): the returned model's reported "
-    "rmse is the minimum over the models that converge when fitted alone, and equals that model's own fit. "
-    "(branch_isolation) two-branch data: fit of branch b == fit of the rows of b alone; scaling the other branch's "
-    "loadings changes nothing (bitwise). (point_model) ModelIsotherm (fitted or built from parameters) in any of the "
-    "10x27x19x2 unit configurations -> PointIsotherm.from_modelisotherm (default grid / list / PointIsotherm / loading "
-    "list): data on the model, metadata/units/material/adsorbate/temperature/branch kept, refit reproduces the curve "
-    "(1e-2). (unit_covariance) exact data written in two unit configurations (reference conversion pbt.ref_units; one "
-    "axis or all axes changed, incl. K<->degC): both fitted curves agree up to the conversion (1e-2 of max). "
-    "Non-trivial = the fit(s) returned and >= 8 points were fitted; distinct by (check, model, rounded generating "
-    "values, grid/data fingerprint)."
+    "Toth / TemkinApprox K*pmax in [0.3,300], n_m in [0.3,3]*L, Toth t in [0.3,3], Temkin tht in [0,1] (3 of 4 draws) "
+    "or (1,2.5]; DSLangmuir two such sites; BET N in [1e-3,0.99], N*pmax in [0.05,0.95], C/N in [0.5,1000]; Freundlich m "
+    "in [0.4,20]; DR/DA relative pressures pmax in [0.05,0.99], e/RT in [0.5,30] raised where needed so that the "
+    "fractional filling at pmax is >= 0.05 (T in [60,400] K), DA m in [1.05,2.95]; Jensen-Seaton K*pmax/a in [1,100], "
+    "b*pmax in [0.01,10], c in [0.3,3]; grids linear / geometric / random in [umin,1]*pmax with umin in [1e-4,0.3] "
+    "(DR/DA p >= 1e-6); magnitudes pmax=P in 10^[-3,5], L in 10^[-6,3] (2 of 3 cases 'natural': P in [0.1,10], L in "
+    "[0.1,100]); data = the library's own model function at those parameters; entry paths arrays / DataFrame / "
+    "from_pointisotherm / model_iso, default or user starting guess (truth x [0.5,2]). Oracle: when the fit returns, "
+    "max|fit(p)-n|/max n <= 1e-2; CalculationError = no claim. (rmse_identity) all 16 models x arbitrary increasing data "
+    "(pressures = cumulative sums of hypothesis-drawn increments, 9-40 points; loadings = cumulative sums or a "
+    "saturating / power curve; desorption leg of >= 8 rows on another curve; multiplicative noise 0/1/5 % from "
+    "numpy.default_rng(seed in the descriptor)), default start or a second fit started from the moved first optimum, "
+    "both branches, Virial with and without add_point: reported rmse == sqrt(mean r^2)/(max-min of the fitted dependent "
+    "variable) recomputed from the fitted model (Virial: sqrt(mean r^2) of its linearised residual, typed here), and "
+    "pressure/loading_range == range of the fitted rows. (bounds) 12 models, user boxes placed around / above / below "
+    "the free optimum (clipped to the default bounds), default or user guess inside: fitted parameters inside the box, "
+    "rmse identity. (guess_best) lists of 2-4 of the 13 faster models (any casing) or 'guess' (1 case in 8) through "
+    "guess(arrays) / guess(DataFrame) / from_pointisotherm / model_iso: the returned model's reported rmse is the "
+    "minimum over the candidates that converge when fitted alone, and equals that candidate's own fit; refusal only if "
+    "none converges. (branch_isolation) 9 models, two-branch data through DataFrame with branch column / DataFrame "
+    "with guessed split / from_pointisotherm / model_iso: fit of branch b == fit of the rows of b alone (bitwise); "
+    "changing the other branch's loadings changes nothing. (point_model) ModelIsotherm (fitted, or built from a "
+    "model instance) in any of the 10x27x19x2 unit configurations with metadata -> PointIsotherm.from_modelisotherm "
+    "(default grid / pressure list / PointIsotherm with interleaved branches / loading list): rows on the model's "
+    "branch, requested abscissae kept, data == model.loading_at / pressure_at (1e-12), metadata / units / material / "
+    "adsorbate / temperature equal, refit of >= 8 generated points reproduces them (1e-2; claimed when a fitted model "
+    "reproduced its own data, i.e. the curve lies inside the windows above). (unit_covariance) exact data written in "
+    "two unit configurations (numbers converted with pbt.ref_units; temperature unit only / pressure / loading / "
+    "material / all axes changed): both fitted curves agree up to the conversion (1e-2 of the largest loading); if only "
+    "the temperature unit differs a refusal on one side is a violation. Non-trivial = the fit(s) returned and >= 8 "
+    "points were fitted (bounds: a bound is binding; guess_best: >= 2 candidates converge with different rmse); "
+    "distinct by (check, model, rounded generating values, grid / data fingerprint, path)."
 )
 ASSUMPTIONS = [
     "exact-recovery / refit / covariance tolerance 1e-2 of the largest loading: least_squares stops on relative "
-    "cost/step changes of 1e-8, which bounds nothing rigorously in a flat valley; worst value observed on the pinned "
-    "tree for converged, well-scaled cases is 1.3e-3 (TemkinApprox, K-theta valley)",
+    "cost/step changes of 1e-8, which bounds nothing rigorously in a flat valley; worst value observed for converged "
+    "cases in unit-range variables is 1.3e-3 (TemkinApprox tht <= 1), 3e-3 (DA)",
     "rmse identity: same arithmetic on the same arrays, rel 1e-9 (abs 1e-13 on the dimensionless number; Virial abs 1e-11: "
     "its fit runs in unit-range variables and the parameters are rescaled afterwards)",
     "a violation of the 1e-2 clauses is sub-classified by one extra run of the library's own routine on the same data "
-    "divided by max(p) and max(n) with optimization_params={'x_scale':'jac'}: if that reproduces the data the tag gets "
-    "the suffix ':scale' (units/scale dependence of the optimiser, ledger KF-C12-1); anything else keeps the plain tag",
+    "divided by max(p) and max(n) with optimization_params={'x_scale':'jac','max_nfev':20000} (repeated from the "
+    "generating parameters only if that run is refused): if it reproduces the data the tag gets the suffix ':scale' "
+    "(units/scale dependence of the optimiser, ledger KF-C12-1); anything else keeps the plain tag and is reported",
+    "the parameter windows of exact_recovery are the region where that unit-range run reproduces the data in > 99.9 % "
+    "of 1500-3000 sampled cases per model; outside it (Freundlich m < 0.35, DR/DA grids that only see fillings < 5 %, "
+    "loading grids piled up at one end) the default starting guess does not lead to the generating curve - excluded "
+    "from generation, reported in the module's final report, not asserted",
     "CalculationError from a fit = library-reported numerical failure = inconclusive, except when the ONLY change is "
     "the temperature unit (identical numbers, K succeeds, degC refuses): a deterministic routine cannot fail on "
     "identical data unless the unit leaks into it",
     "DR/DA are only fitted to pressures stored in mode 'relative' (their docstring); BET pressure changes are only "
     "claimed when the generating N stays below its bound 1 in both unit systems",
     "param_guess / param_bounds dictionaries are always complete (partial ones raise KeyError; not asserted)",
-    "unit conversions of the covariance check: pbt.ref_units (SI tables + CoolProp PropsSI)",
+    "unit conversions of the covariance check: pbt.ref_units (SI tables + CoolProp PropsSI); every unit change of the "
+    "library is a pure scaling of the pressure and of the loading axis",
 ]
 
 WELL_POSED = ("Henry", "Langmuir", "DSLangmuir", "BET", "Freundlich", "DR", "DA", "TemkinApprox", "Toth", "JensenSeaton")
@@ -987,7 +1002,7 @@ def strat_covariance():
     return st.builds(
         lambda axis, t1, spec, u1, u2, at, mat: {"axis": axis, "spec": spec, "u1": dict(u1, temperature_unit=t1), "u2": u2,
                                                  "adsorbate": at["adsorbate"], "T_K": at["T_K"], "material": mat},
-        st.sampled_from(["temperature", "temperature", "pressure", "loading", "material", "all"]),
+        st.sampled_from(["pressure", "pressure", "loading", "material", "all", "all", "temperature", "temperature"]),
         st.sampled_from(["K", "°C"]), exact_spec(natural_only=True), S.units(), S.units(), S.ads_T(), S.material())
 
 
@@ -1074,21 +1089,21 @@ def check_covariance(desc, ctx):
 
 
 CHECKS = [
-    Check("exact_recovery", check_exact, strategy=strat_exact, budget={"quick": 2400, "thorough": 30000},
+    Check("exact_recovery", check_exact, strategy=strat_exact, budget={"quick": 3600, "thorough": 60000},
           rule="10 well-posed models x generating parameters x 8-60 point grids x magnitudes x entry paths; fit reproduces "
                "its own exact data within 1e-2 of the largest loading"),
-    Check("rmse_identity", check_rmse, strategy=strat_rmse, budget={"quick": 960, "thorough": 12000},
+    Check("rmse_identity", check_rmse, strategy=strat_rmse, budget={"quick": 1440, "thorough": 24000},
           rule="16 models x arbitrary noisy increasing data x entry paths x branch x default/user start: reported rmse == "
                "recomputed normalised RMS deviation; stored ranges == ranges of the fitted rows"),
-    Check("bounds", check_bounds, strategy=strat_bounds, budget={"quick": 640, "thorough": 6000},
+    Check("bounds", check_bounds, strategy=strat_bounds, budget={"quick": 960, "thorough": 12000},
           rule="user boxes around/above/below the free optimum, user guesses inside: parameters stay in the box"),
-    Check("guess_best", check_guess, strategy=strat_guess, budget={"quick": 128, "thorough": 1600}, shrink_quick=False,
+    Check("guess_best", check_guess, strategy=strat_guess, budget={"quick": 192, "thorough": 3200}, shrink_quick=False,
           rule="lists of 2-4 models or 'guess' through guess()/from_pointisotherm/model_iso: winner has the minimum reported "
                "rmse among the candidates that converge alone"),
-    Check("branch_isolation", check_branch, strategy=strat_branch, budget={"quick": 640, "thorough": 6000},
+    Check("branch_isolation", check_branch, strategy=strat_branch, budget={"quick": 960, "thorough": 12000},
           rule="two-branch inputs (explicit or guessed split): fit == fit of the requested rows; other branch perturbed"),
-    Check("point_model", check_point_model, strategy=strat_point_model, budget={"quick": 1200, "thorough": 16000},
+    Check("point_model", check_point_model, strategy=strat_point_model, budget={"quick": 1800, "thorough": 32000},
           rule="from_modelisotherm in any unit configuration: on the model, metadata/units kept, refit reproduces"),
-    Check("unit_covariance", check_covariance, strategy=strat_covariance, budget={"quick": 1200, "thorough": 16000},
+    Check("unit_covariance", check_covariance, strategy=strat_covariance, budget={"quick": 1800, "thorough": 32000},
           rule="same exact data in two unit configurations: fitted curves agree up to the reference conversion"),
 ]
